@@ -87,90 +87,139 @@ def check(ctx):
         ctx.ob("forward", g, n.ast, ok, why, node=n)
 
     # ---------------------------------------------------------------- C10.2 sensitive branch
+    # decided by specialising to_tree: "a mask is given / the field is sensitive / the value is non-empty / the mask is one
+    # character" each fix the outcome of the tests that ask exactly that (through local flags and inlined helpers alike);
+    # what can still be stored in the tree on the feasible paths is the verdict.
+    from engine.specialize import Spec
     mp = mask_param(to_tree)
     calls = an.summary(CALLS)
     reach = reachable_from_entry(an, to_tree)
-    t_sens = [n for n in g0.nodes if n.kind == "test" and n in reach and isinstance(n.ast, ast.Attribute)
-              and n.ast.attr == "sensitive"]
-    t_mask = [n for n in g0.nodes if n.kind == "test" and n in reach and isinstance(n.ast, ast.Compare)
-              and len(n.ast.ops) == 1 and isinstance(n.ast.ops[0], (ast.Is, ast.IsNot))
-              and isinstance(n.ast.left, ast.Name) and n.ast.left.id == mp
-              and isinstance(n.ast.comparators[0], ast.Constant) and n.ast.comparators[0].value is None]
+    ftt = an.ft(to_tree)
     encoders = [n for n in g0.nodes if n in reach and any(e[0] == "CODEC" and e[2] == "to_basic" for e in calls.direct(to_tree, n))]
     ctx.need(bool(encoders), "Config.to_tree no longer calls field.to_basic: vanished anchor")
-    if not t_sens or not t_mask:
-        ctx.ob("sensitive-branch.exists", to_tree, "test of field.sensitive and of sensitive_mask is not None", False,
-               "to_tree has no branch on %s: sensitive values are never masked" %
-               ("field.sensitive" if not t_sens else "sensitive_mask is not None"))
-        return
-    ctx.ob("sensitive-branch.exists", to_tree, "test of field.sensitive and of sensitive_mask is not None", True,
-           "%d test(s) of .sensitive, %d of the mask" % (len(t_sens), len(t_mask)))
-    loop_heads = {n for n in g0.nodes if n.kind == "for_iter"}
-    oracle = lambda n: an.node_may_raise(to_tree, n)
-    for tm in t_mask:
-        truth = isinstance(tm.ast.ops[0], ast.IsNot)      # the edge on which a mask is present
-        entry = [s for s, lbl in tm.succ if lbl is truth]
-        # the mask test must itself sit under field.sensitive being true
-        under_sens = any(t in t_sens and tr for t, tr in dominating_guards(an, to_tree, tm))
-        ctx.ob("sensitive-branch.guard", to_tree, tm.ast, under_sens,
-               "the mask test is evaluated only for fields whose .sensitive is true" if under_sens else
-               "the mask branch is not restricted to sensitive fields: non-sensitive values would be masked", node=tm)
-        for e in entry:
-            p = g0.path(e, lambda n: n in encoders, may_raise=oracle, stop=lambda n: n in loop_heads)
-            ctx.ob("sensitive-branch.excludes-encoder", to_tree, encoders[0].ast, p is None,
-                   "field.to_basic is unreachable in the same iteration once the sensitive branch is taken"
-                   if p is None else "a sensitive value still reaches the encoder after the mask branch: %s" %
-                   " -> ".join("%s@%s" % (x.kind, x.lineno) for x in p), node=tm)
-    # every encoder call must lie on the no-mask / not-sensitive side
-    for enc in encoders:
-        bad = None
-        for tm in t_mask:
-            truth = isinstance(tm.ast.ops[0], ast.IsNot)
-            for s, lbl in tm.succ:
-                if lbl is truth and g0.path(s, lambda n: n is enc, may_raise=oracle, stop=lambda n: n in loop_heads):
-                    bad = tm
-        ctx.ob("encoder.after-sensitive-test", to_tree, enc.ast, bad is None,
-               "reached only when the field is not sensitive or no mask is given" if bad is None else
-               "the encoder runs on the masked side", node=enc)
-        # and the encoder must not run *before* the sensitive test of the same iteration
-        first = None
-        for t in t_sens:
-            first = first or g0.path(enc, lambda n, t=t: n is t, may_raise=oracle, stop=lambda n: n in loop_heads,
-                                     from_successors=True)
-        ctx.ob("encoder.not-before-sensitive-test", to_tree, enc.ast, first is None,
-               "field.to_basic never runs ahead of the sensitive test of the same field" if first is None else
-               "field.to_basic runs before the sensitive test: %s" %
-               " -> ".join("%s@%s" % (x.kind, x.lineno) for x in first), node=enc)
+    tree_names = {r.ast.value.id for r in g0.nodes if r.kind == "return" and isinstance(r.ast.value, ast.Name)}
+    stores = [n for n in g0.nodes if n.kind == "assign" and n in reach and isinstance(n.ast, ast.Assign) and any(
+        isinstance(t, ast.Subscript) and isinstance(t.value, ast.Name) and t.value.id in tree_names for t in n.ast.targets)]
+    ctx.need(bool(stores), "Config.to_tree no longer stores into the tree it returns: vanished anchor")
 
-    # what the sensitive branch renders
-    for n in g0.nodes:
-        if n.kind != "assign" or n not in reach:
-            continue
-        st = n.ast
-        val = getattr(st, "value", None)
-        if val is None:
-            continue
-        uses_mask = any(isinstance(x, ast.Name) and x.id == mp and mask_role(x, mp) != "forwarded argument"
-                        for x in ast.walk(val))
-        if not uses_mask:
-            continue
-        under = any(t in t_mask and tr is isinstance(t.ast.ops[0], ast.IsNot) for t, tr in dominating_guards(an, to_tree, n))
-        form = mask_form(val, mp)
-        ok = under and form is not None
-        why = "renders %s under `sensitive_mask is not None`" % form if ok else (
-            "the mask is used outside the `sensitive_mask is not None` branch" if not under else
-            "the sensitive branch renders %s, which is neither the mask nor the mask repeated to the value's length"
-            % ast.unparse(val))
-        if ok and form == "mask * len(value)":
-            # only for one-character masks
-            one = any(tr and is_len_eq_one(t.ast, mp) for t, tr in dominating_guards(an, to_tree, n))
-            if not one:
-                ok, why = False, "the mask is repeated although it is not known to be one character long"
-        if ok and form == "mask":
-            notone = any((not tr) and is_len_eq_one(t.ast, mp) for t, tr in dominating_guards(an, to_tree, n))
-            if not notone:
-                ok, why = False, "the verbatim mask is used for one-character masks too (must be repeated to the value's length)"
-        ctx.ob("sensitive-branch.renders-mask", to_tree, st, ok, why, node=n)
+    def is_mask(e, node):
+        if not isinstance(e, ast.Name):
+            return False
+        srcs = value_sources(to_tree, e, node)
+        return bool(srcs) and all(k == "param" and p == mp for k, p in srcs)
+
+    def is_field_value(e, node):
+        """the value read from the field (field.__getval__(self)), possibly through locals"""
+        if isinstance(e, ast.Call) and isinstance(e.func, ast.Name) and e.func.id == "str" and len(e.args) == 1:
+            e = e.args[0]
+        srcs = value_sources(to_tree, e, node) if isinstance(e, ast.Name) else [("expr", e)]
+        return bool(srcs) and all(k == "expr" and isinstance(p, ast.Call) and isinstance(p.func, ast.Attribute) and p.func.attr == "__getval__"
+                                  for k, p in srcs)
+
+    def scenario(mask_given, sensitive, truthy=None, one_char=None):
+        def decide(e, node):
+            if isinstance(e, ast.Compare) and len(e.ops) == 1 and isinstance(e.comparators[0], ast.Constant) and e.comparators[0].value is None \
+                    and is_mask(e.left, node):
+                if isinstance(e.ops[0], (ast.Is, ast.Eq)):
+                    return not mask_given
+                if isinstance(e.ops[0], (ast.IsNot, ast.NotEq)):
+                    return mask_given
+            if is_mask(e, node):
+                return None if mask_given else False
+            if isinstance(e, ast.Attribute) and e.attr == "sensitive":
+                return sensitive
+            if isinstance(e, ast.Call) and isinstance(e.func, ast.Name) and e.func.id == "isinstance" and len(e.args) == 2:
+                spec = ftt.class_spec(e.args[1], {}) or []
+                if is_field_value(e.args[0], node) and spec and all(c in ("Config", "list", "dict", "tuple", "ListProxy", "DictProxy") or
+                                                                     (c in an.model.classes and an.model.classes[c].is_subclass_of(an.model.cls("Config"))) for c in spec):
+                    return False        # a scalar value
+                if isinstance(e.args[0], ast.Name) and spec and not is_field_value(e.args[0], node) and any(
+                        k == "iter" for k, _ in value_sources(to_tree, e.args[0], node)):
+                    # the field of this iteration: a plain scalar Field (neither a schema, a configuration type nor a mixin kind)
+                    return any(c in ("Field", "BaseField") for c in spec)
+            if one_char is not None and isinstance(e, ast.Compare) and len(e.ops) == 1 and isinstance(e.left, ast.Call) and isinstance(e.left.func, ast.Name) \
+                    and e.left.func.id == "len" and e.left.args and is_mask(e.left.args[0], node) and isinstance(e.comparators[0], ast.Constant) \
+                    and e.comparators[0].value == 1:
+                if isinstance(e.ops[0], ast.Eq):
+                    return one_char
+                if isinstance(e.ops[0], ast.NotEq):
+                    return not one_char
+            if truthy is not None and is_field_value(e, node) and not isinstance(e, ast.Call):
+                return truthy
+            if isinstance(e, ast.Compare) and len(e.ops) == 1 and isinstance(e.ops[0], ast.NotIn) and isinstance(e.comparators[0], ast.Attribute) \
+                    and e.comparators[0].attr == "_data":
+                return False
+            return None
+        return Spec(an, to_tree, decide)
+
+    def mask_derived(p, node):
+        return isinstance(p, ast.AST) and any(isinstance(x, ast.Name) and isinstance(x.ctx, ast.Load) and is_mask(x, None) for x in ast.walk(p))
+
+    def stored(sp):
+        out = []
+        for st in stores:
+            if st in sp.nodes:
+                for k, p in sp.sources(st.ast.value, st):
+                    out.append((k, p, st))
+        return out
+
+    def repeated_form(p):
+        if not (isinstance(p, ast.BinOp) and isinstance(p.op, ast.Mult)):
+            return False
+        for m, l in ((p.left, p.right), (p.right, p.left)):
+            if is_mask(m, None) and isinstance(l, ast.Call) and isinstance(l.func, ast.Name) and l.func.id == "len" and len(l.args) == 1 \
+                    and is_field_value(l.args[0], None):
+                return True
+        return False
+
+    # S0: the branch exists at all -- with a mask and a sensitive non-empty value the encoder is out of reach
+    s_on = scenario(True, True, truthy=True)
+    enc_on = [n for n in encoders if n in s_on.nodes]
+    any_mask_store = any(mask_derived(p, st) for k, p, st in stored(s_on))
+    if enc_on and not any_mask_store:
+        ctx.ob("sensitive-branch.exists", to_tree, "masking of sensitive values", False,
+               "to_tree has no branch that masks a sensitive value when sensitive_mask is given: sensitive values are never masked")
+        return
+    ctx.ob("sensitive-branch.exists", to_tree, "masking of sensitive values", True, "a sensitive value is replaced when a mask is given")
+    for n in encoders:
+        ok = n not in s_on.nodes
+        ctx.ob("sensitive-branch.excludes-encoder", to_tree, n.ast, ok,
+               "field.to_basic is out of reach for a sensitive value once a mask is given" if ok else
+               "a sensitive value still reaches field.to_basic although a mask is given: it is rendered in clear", node=n)
+    # what is rendered: one-character masks are repeated to the value's length, any other mask is used verbatim
+    for one, want in ((True, "the mask repeated to the length of the value"), (False, "the mask itself")):
+        sp = scenario(True, True, truthy=True, one_char=one)
+        vals = stored(sp)
+        ctx.need(bool(vals), "no store into the tree reachable for a masked value")
+        for k, p, st in vals:
+            if one:
+                ok = k == "expr" and repeated_form(p)
+            else:
+                ok = k == "param" and p == mp
+            ctx.ob("sensitive-branch.renders-mask", to_tree, "%s mask: %s" % ("one-character" if one else "longer / empty",
+                                                                             ast.unparse(p)[:50] if isinstance(p, ast.AST) else p), ok,
+                   "renders %s" % want if ok else
+                   "for a %s mask the sensitive branch renders %s instead of %s" % (
+                       "one-character" if one else "longer or empty", ast.unparse(p)[:60] if isinstance(p, ast.AST) else p, want), node=st)
+    # an empty sensitive value is not replaced by a mask (nothing to hide, and nothing invented)
+    sp = scenario(True, True, truthy=False)
+    for k, p, st in stored(sp):
+        ok = not mask_derived(p, st) and not (isinstance(p, ast.Call) and any(n.ast is p for n in encoders))
+        ctx.ob("sensitive-branch.empty-value", to_tree, ast.unparse(p)[:50] if isinstance(p, ast.AST) else str(p), ok,
+               "an empty sensitive value is rendered without a mask" if ok else "an empty sensitive value is rendered as a mask", node=st)
+    # masking is confined to sensitive fields with a mask given
+    for mg, sens, what in ((True, False, "a field that is not sensitive"), (False, True, "no mask given")):
+        sp = scenario(mg, sens, truthy=True)
+        vals = stored(sp)
+        bad = [(p, st) for k, p, st in vals if mask_derived(p, st) or (k == "param" and p == mp)]
+        ctx.ob("sensitive-branch.guard", to_tree, "masking with %s" % what, not bad,
+               "with %s the value is not masked" % what if not bad else
+               "with %s the value is still masked: %s" % (what, ast.unparse(bad[0][0])[:50] if isinstance(bad[0][0], ast.AST) else bad[0][0]),
+               node=bad[0][1] if bad else None)
+        enc_here = [n for n in encoders if n in sp.nodes]
+        ctx.ob("encoder.after-sensitive-test", to_tree, "field.to_basic with %s" % what, bool(enc_here),
+               "with %s the value goes through field.to_basic" % what if enc_here else
+               "with %s the value is never encoded" % what)
 
     # ---------------------------------------------------------------- C10.3 other uses of the mask
     for x in ast.walk(to_tree.node):
@@ -242,6 +291,17 @@ def intercepted(an, to_tree, g, edge_node):
     fam = to_tree_family(an)
     loop_heads = {n for n in g0.nodes if n.kind == "for_iter" and isinstance(n.ast, ast.For)}
     oracle = lambda n: an.node_may_raise(to_tree, n)
+    # what does the unforwarding edge render: the items of the value g was given, or that value itself?
+    erecv = edge_node.ast.func.value if isinstance(edge_node.ast.func, ast.Attribute) else None
+    shape = None
+    if erecv is not None:
+        kinds = {k for k, _ in value_sources(g, erecv, edge_node)}
+        if kinds == {"iter"}:
+            shape = "items"
+        elif kinds == {"param"}:
+            shape = "self"
+    if shape is None:
+        return False, base + " (cannot relate what it renders to the value it was given)"
     for c in cs:
         # the value handed to g
         tgs = [t for t in an.targets(to_tree, c) if t.kind == "fn"]
@@ -261,10 +321,14 @@ def intercepted(an, to_tree, g, edge_node):
             if recv is None:
                 continue
             for kind, payload in value_sources(to_tree, recv, f):
-                if kind == "iter" and isinstance(payload[0], ast.Name):
+                if shape == "items" and kind == "iter" and isinstance(payload[0], ast.Name):
                     for v in vals:
                         if v.id == payload[0].id:
                             found = (f, v)
+            if shape == "self" and isinstance(recv, ast.Name):
+                for v in vals:
+                    if same_name_value(to_tree, recv, f, v, c):
+                        found = (f, v)
         if found is None:
             return False, base
         f, v = found
@@ -280,7 +344,14 @@ def intercepted(an, to_tree, g, edge_node):
         ftt = an.ft(to_tree)
 
         def atom_ok(e):
-            """accepted guard atoms: truthiness of V; isinstance(V, list-like); all/any(isinstance(item, Config) for item in V)"""
+            """accepted guard atoms: truthiness of V; isinstance(V, list-like); all/any(isinstance(item, Config) for item in V);
+            for a value rendered itself: isinstance(V, Config)"""
+            if shape == "self":
+                if isinstance(e, ast.Call) and isinstance(e.func, ast.Name) and e.func.id == "isinstance" and len(e.args) == 2 \
+                        and isinstance(e.args[0], ast.Name) and e.args[0].id == v.id:
+                    spec = ftt.class_spec(e.args[1], {}) or []
+                    return "Config" in spec
+                return False
             if isinstance(e, ast.Name) and e.id == v.id:
                 return True
             if isinstance(e, ast.Call) and isinstance(e.func, ast.Name) and e.func.id == "isinstance" and len(e.args) == 2 \
@@ -302,8 +373,9 @@ def intercepted(an, to_tree, g, edge_node):
 
         for t in specific:
             if not atom_ok(t.ast):
-                return False, base + (" (the intercepting guard `%s` is not a test of the value being a list of configurations: "
-                                      "lists it does not select still reach the unforwarding edge)" % ast.unparse(t.ast)[:60])
+                return False, base + (" (the intercepting guard `%s` is not a test of the value being %s: "
+                                      "values it does not select still reach the unforwarding edge)" % (
+                                          ast.unparse(t.ast)[:60], "a list of configurations" if shape == "items" else "a configuration"))
         # the encoder call must come after the interception test (reachable from a False edge)
         ok_order = any(g0.path(t, lambda n: n is c, may_raise=oracle, stop=lambda n: n in loop_heads) for t in specific)
         if not ok_order:
